@@ -1,9 +1,9 @@
 -------------------------- MODULE ProgramBlob_Trace --------------------------
 (* V-step for C03 (stateless; every record judged).  The driver ran the real code   *)
 (* on the blob under recover(), a watchdog and allocation accounting:               *)
-(*  common: {tag, kind, blob, al, gas, pc, allocK, hang, mem, died}                  *)
+(*  common: {tag, kind, blob, al, gas, pc, want, allocK, hang, mem, died}            *)
 (*  kind "std":   init:{ok, panic}   (SingleInitializer)                            *)
-(*                psi:{kind: "bytes"|"panic"|"oog"|"other", used, panic} (Psi_M)    *)
+(*                psi:{kind: "bytes"|"panic"|"oog"|"other", used, outlen, panic}    *)
 (*  kind "inner": deblob:{ok, panic} (DeBlobProgramCode)                            *)
 (*                run:{ran, kind: "halt"|"panic"|"oog"|"fault"|"host"|"other", used, panic}       *)
 (*                machine:{exit, w7:[8], panic}, invoke:{ran, exit, w7:[8], gasleft, panic}       *)
@@ -43,7 +43,9 @@ StdReasons(e) ==
            ELSE IF e.hang \/ e.mem \/ e.died # "" THEN {}
            ELSE (IF e.psi.kind \notin {"bytes", "panic", "oog"} THEN {"undefined_outcome"} ELSE {})
                 \cup (IF cls.class = "malformed" /\ e.psi.kind # "panic" THEN {"malformed_not_panic_" \o cls.why} ELSE {})
-                \cup (IF e.psi.used < 0 \/ e.psi.used > e.gas THEN {"gas_used_out_of_range"} ELSE {}))
+                \cup (IF e.psi.used < 0 \/ e.psi.used > e.gas THEN {"gas_used_out_of_range"} ELSE {})
+                \* halt class: the generator (ProgramBlob_Gen!HaltCases) fixed the output length by A.8 R
+                \cup (IF e.want >= 0 /\ (e.psi.kind # "bytes" \/ e.psi.outlen # e.want) THEN {"halt_output"} ELSE {}))
 
 InnerReasons(e) ==
   LET cls == InnerParse(e.blob) IN
